@@ -480,6 +480,7 @@ fn non_utf8_name(cases: &[Logical], ci: usize, which: &str) -> Result<(), String
 
 pub fn run(rep: &'static Report) {
     rep.set_rule("E-PROC product: every logical case (valid and invalid inputs, keyrings with the sender first/last/absent and decoy entries sharing 24-character prefixes/suffixes of the sender's key and prefix/extension/case variants of the names) x the full product of wirings {file argument | stdin} x {-o | stdout} x {-k | KESTREL_KEYRING} x {long | short options} x {command | alias} x {options before | after the positional}: 64 per keyring command, 32 per password command. Each run is checked against the CLI reference model (exit status, plaintext bytes, REF-validity of produced files, sender line) and all wirings of one logical case must yield the same outcome. distinct non-trivial = distinct (logical case, wiring) runs");
+    rep.rule_add("Library level: decryption/encryption into sinks of bounded capacity succeed exactly when everything fitted.");
     rep.rule_add("per logical case the extra wirings size-limited output, pre-existing output, FIFO input, alias-named FILE, 5 pseudo-terminal wirings, decoy environment, stdout=/dev/full, stdout=closed pipe, stdin in pieces, names that are not UTF-8 (output, input, keyring; a U+FFFD-named neighbour holds other data).");
     rep.rule_add("Logical cases include whole records swapped, repeated and dropped in both modes.");
     rep.assume("terminal-attached branches are exercised through a pseudo-terminal (password typed at a controlling terminal or at a terminal stdin); a real terminal emulator is not involved");
@@ -817,10 +818,15 @@ pub fn run(rep: &'static Report) {
     rep.extra("runs", json!(jobs.len()));
     rep.sample(json!({"case":"decrypt/valid-3-chunks-sender-last","wiring":{"input":"stdin","output":"stdout","keyring":"KESTREL_KEYRING","options":"short","command":"dec"},"expect":"exit 0; stdout == 131149 plaintext bytes; stderr 'Success. File from: alice' although decoy entries share 24 leading/trailing characters of alice's key"}));
     rep.sample(json!({"case":"decrypt/truncated-at-chunk-boundary","expect":"exit 1 with Error: under all 64 wirings"}));
+    crate::c10::bounded_sink_cases(rep, "C12");
     rep.set_exhaustive(true);
 }
 
 pub fn replay(rep: &'static Report, case: &Value) {
+    if case["kind"] == "bounded-sink" {
+        crate::c10::bounded_sink_cases(rep, "C12");
+        return;
+    }
     let cases = logical_cases(rep.seed, rep.tier);
     let name = case["case"].as_str().unwrap_or("");
     let c = cases.iter().find(|c| c.name == name).unwrap_or_else(|| crate::report::machinery("unknown case"));
